@@ -14,6 +14,11 @@ def judge(c, m, byid, outs):
     if flat.get("high_s") == "yes" and flat.get("accepted") == "yes":
         return ("property", "a signature with s = halfOrder+1 > n/2 is accepted by %s (\"only low-s signatures are accepted\" is false)"
                 % flat.get("check"))
+    if flat.get("genuine_refused") == "yes":
+        return ("property", "the genuine signed block is refused by the %s after a rejected alteration (%s)" % (flat.get("role"), flat.get("mutation")))
+    if flat.get("concurrent_equal") == "no":
+        return ("property", "an acceptance check answers differently when other goroutines are inside the library: %s: sequential %s, concurrent %s"
+                % (str(flat.get("call"))[:200], flat.get("sequential"), flat.get("concurrent")))
     if flat.get("accepted") == "yes" and flat.get("same") == "no":
         return ("property", "malleation %r of a valid %s gives different bytes that are accepted in the same role (%s)"
                 % (flat.get("mutation"), flat.get("role"), flat.get("check", flat.get("role"))))
